@@ -41,6 +41,8 @@ def run_shard(spec, shard):
         ast, text, used = diff.make_query(r, shard, filters=False, names=names, min_segs=1,
                                           max_segs=5 if tier == "thorough" else 4, big_ints=True, doc=doc)
         case = {"q": text, "ast": ast, "doc": doc}
+        if r.random() < 0.08:
+            case["exotic"] = r.randrange(1, 2**31)
         f = examine(case)
         feats = Q.features(ast)
         from vlib.ref import evaluate as ev
